@@ -612,7 +612,8 @@ theorem gaps_recognised (ori : List Rat) (oo : Ori) (hori : Ori.ofList ori = som
 
 /-- **with gaps allowed: recognised EXACTLY WHEN every plane is within tolerance of a whole multiple of the spacing**
 (repaired behaviour).  Stack along a line (rows `f j` at strictly increasing distances `g j`, any input order `js`
-covering `0 … M`, duplicates when declared), spacing `sp > 0` = the hint, or without hint the smallest consecutive gap:
+covering `0 … M`, duplicates when declared), spacing `sp > 0` = the hint, or without hint the estimate `estimateSpacing` (the
+smallest consecutive gap refined over the extent: `refineSpacing`):
 the answer is `(sp, round((g j − g 0)/sp))` if every multiple `(g j − g 0)/sp` is within `rtol + atol/sp` of its rounding —
 every plane within `atol + rtol·sp` (mm) of `g 0 + k·sp` for an integer `k` — and the span is perpendicular; `(None, None)`
 otherwise.  The tolerance does NOT grow with the plane number. -/
@@ -620,8 +621,7 @@ theorem gaps_recognised_iff (nrm : V3) (f : Nat → V3) (g : Nat → Rat) (hfg :
     (hg : StrictMono g) (js : List Nat) {M : Nat} (hM : 1 ≤ M) (hmem : ∀ j, j ∈ js ↔ j < M + 1) (op : Opts)
     (hsort : op.sort = true) (hmiss : op.allowMissing = true) (hdup : op.allowDuplicate = true ∨ js.Nodup)
     {sp : Rat} (hsp0 : 0 < sp) (hint : Option Rat)
-    (hsp : hint = some sp ∨ (hint = none ∧ minList (diffs ((List.range (M + 1)).map g)) = some sp ∧
-      isClose sp 0 npRtol eqTol = false))
+    (hsp : hint = some sp ∨ (hint = none ∧ estimateSpacing ((List.range (M + 1)).map g) = .ok (some sp)))
     (rtol atol : Rat) :
     volumePositionsOf nrm (js.map f) op hint rtol atol
       = .ok (if ((List.range (M + 1)).all fun j =>
@@ -647,8 +647,7 @@ theorem gaps_irregular_rejected (nrm : V3) (f : Nat → V3) (g : Nat → Rat) (h
     (hg : StrictMono g) (js : List Nat) {M : Nat} (hM : 1 ≤ M) (hmem : ∀ j, j ∈ js ↔ j < M + 1) (op : Opts)
     (hsort : op.sort = true) (hmiss : op.allowMissing = true) (hdup : op.allowDuplicate = true ∨ js.Nodup)
     {sp : Rat} (hsp0 : 0 < sp) (hint : Option Rat)
-    (hsp : hint = some sp ∨ (hint = none ∧ minList (diffs ((List.range (M + 1)).map g)) = some sp ∧
-      isClose sp 0 npRtol eqTol = false))
+    (hsp : hint = some sp ∨ (hint = none ∧ estimateSpacing ((List.range (M + 1)).map g) = .ok (some sp)))
     (rtol atol : Rat) (j0 : Nat) (hj0 : j0 < M + 1)
     (hbad : isClose ((g j0 - g 0) / sp) ((roundHalfEven ((g j0 - g 0) / sp) : Int) : Rat) 0 (rtol + atol / rabs sp) = false) :
     volumePositionsOf nrm (js.map f) op hint rtol atol = .ok none := by
@@ -692,7 +691,7 @@ theorem gaps_accepted_sound (nrm : V3) (ps : List V3) (op : Opts) (hsort : op.so
       have hs0 : 0 < s := by
         cases hint with
         | some hh => rw [hh1 hh rfl]; exact hhint hh rfl
-        | none => obtain ⟨hm, hz⟩ := hh2 rfl; exact gaps_spacing_pos hm hz
+        | none => exact estimateSpacing_pos (hh2 rfl)
       refine ⟨s, dmin, hs0, by rw [hsR, rabs_of_pos hs0], hh1, ?_⟩
       intro i hi
       have hmi : ps[i] ∈ uniqueRows ps := (mem_uniqueRows _ ps).mpr (List.getElem_mem hi)
@@ -716,9 +715,11 @@ theorem gaps_indices_monotone (nrm : V3) (ps : List V3) (op : Opts) (hsort : op.
   apply div_le_div_of_nonneg_right _ (le_of_lt hs0)
   linarith
 
-/-- the witnesses of the repaired defect are refused now: a plane half a spacing off, 100 spacings up -/
+/-- the witnesses of the repaired defect are refused: a plane half a spacing off the hinted grid, 100 spacings up; without a hint,
+a plane half a spacing off that no refinement of the spacing can place (without a hint `0, 1, 100.5` IS regular at spacing 1.005) -/
 theorem far_plane_half_off_refused :
-    getVolumePositions [[0, 0, 0], [0, 0, -1], [0, 0, -201 / 2]] [1, 0, 0, 0, 1, 0] { allowMissing := true } = .ok none := by
+    getVolumePositions [[0, 0, 0], [0, 0, -1], [0, 0, -201 / 2]] [1, 0, 0, 0, 1, 0] { allowMissing := true, hint := some 1 } = .ok none ∧
+    getVolumePositions [[0, 0, 0], [0, 0, -1], [0, 0, -2], [0, 0, -7 / 2]] [1, 0, 0, 0, 1, 0] { allowMissing := true } = .ok none := by
   decide +kernel
 
 /-- … and 100 planes with spacing 1 under the hint 1.009 (planes far up are half a spacing off the hinted grid) -/
@@ -727,32 +728,51 @@ theorem drifting_hint_refused :
       { allowMissing := true, hint := some (1009 / 1000) } = .ok none := by
   decide +kernel
 
-/-! ### open finding C11-gaps-min-gap-estimate (code left as it is, model mirrors it)
+/-! ### the estimate without a hint (defect C11-gaps-min-gap-estimate, repaired in 8504cfa)
 
-FULL STATEMENT that the property suggests and that does NOT hold of the code: "with gaps allowed and no hint, a stack all of
-whose planes lie within the tolerance of `o + k·s·n` for SOME spacing `s` is recognised".  Without a hint the code takes the
-smallest consecutive gap at face value as THE spacing; when the two planes that define it are themselves jittered (inside the
-tolerance), planes far up are measured against the mis-estimated spacing.  What holds is `gaps_recognised_iff` /
-`gaps_without_hint_partial`: recognised exactly when regular with respect to the SMALLEST GAP.  The witness below is replayed
-on the implementation by every run (KNOWN-FINDING). -/
+Without a hint the code used to take the smallest consecutive gap at face value as THE spacing; when the two planes that define
+it are themselves rounded / jittered (inside the tolerance), planes far up were measured against the mis-estimated spacing and a
+regular stack was refused.  The estimate is now refined over growing baselines (`refineSpacing`): for the distance `D` of every
+plane above the lowest one, in increasing order, `n = round(D / s)`, `s := D / n`. -/
 
-/-- the part that holds without a hint: the criterion is relative to the smallest consecutive gap `sp` of the stack -/
-theorem gaps_without_hint_partial (nrm : V3) (f : Nat → V3) (g : Nat → Rat) (hfg : ∀ j, nrm.dot (f j) = g j)
+/-- the criterion without a hint is `gaps_recognised_iff` with the refined estimate -/
+theorem gaps_without_hint_criterion (nrm : V3) (f : Nat → V3) (g : Nat → Rat) (hfg : ∀ j, nrm.dot (f j) = g j)
     (hg : StrictMono g) (js : List Nat) {M : Nat} (hM : 1 ≤ M) (hmem : ∀ j, j ∈ js ↔ j < M + 1) (op : Opts)
     (hsort : op.sort = true) (hmiss : op.allowMissing = true) (hdup : op.allowDuplicate = true ∨ js.Nodup)
-    {sp : Rat} (hsp0 : 0 < sp) (hmin : minList (diffs ((List.range (M + 1)).map g)) = some sp)
-    (hz : isClose sp 0 npRtol eqTol = false) (rtol atol : Rat) :
+    {m : Rat} (hmin : minList (diffs ((List.range (M + 1)).map g)) = some m)
+    (hz : isClose m 0 npRtol eqTol = false) (rtol atol : Rat) :
+    let sp := refineSpacing m ((List.range M).map fun j => g (j + 1) - g 0)
     volumePositionsOf nrm (js.map f) op none rtol atol
       = .ok (if ((List.range (M + 1)).all fun j =>
                   isClose ((g j - g 0) / sp) ((roundHalfEven ((g j - g 0) / sp) : Int) : Rat) 0 (rtol + atol / rabs sp))
                 && isPerpendicular nrm ((f M).sub (f 0))
-             then some (sp, js.map fun j => roundHalfEven ((g j - g 0) / sp)) else none) :=
-  gaps_recognised_iff nrm f g hfg hg js hM hmem op hsort hmiss hdup hsp0 none (Or.inr ⟨rfl, hmin, hz⟩) rtol atol
+             then some (sp, js.map fun j => roundHalfEven ((g j - g 0) / sp)) else none) := by
+  intro sp
+  have hest : estimateSpacing ((List.range (M + 1)).map g) = .ok (some sp) := by
+    rw [estimateSpacing_of_min hmin hz]
+    congr 3
+    rw [List.range_succ_eq_map]
+    simp only [List.map_cons, List.tail_cons, List.headD_cons, List.map_map]
+    rfl
+  have hsp0 : 0 < sp := by
+    have hm0 : 0 < m := by
+      have := sortRat_mono hg (List.Perm.refl (List.range (M + 1)))
+      rw [← this] at hmin
+      exact gaps_spacing_pos hmin hz
+    apply refineSpacing_pos _ hm0
+    intro D hD
+    rw [List.mem_map] at hD
+    obtain ⟨j, _, rfl⟩ := hD
+    have := hg (Nat.succ_pos j)
+    simp only [Nat.succ_eq_add_one] at this
+    linarith
+  exact gaps_recognised_iff nrm f g hfg hg js hM hmem op hsort hmiss hdup hsp0 none (Or.inr ⟨rfl, hest⟩) rtol atol
 
-/-- planes at 0, 0.9975, 100 along the normal (spacing 1, every plane within 0.0025 = a quarter of the 1 % tolerance of the
-grid): refused, because the smallest gap 0.9975 is taken as the spacing -/
-theorem counterexample_min_gap_jitter_refused :
-    getVolumePositions [[0, 0, 0], [0, 0, -399 / 400], [0, 0, -100]] [1, 0, 0, 0, 1, 0] { allowMissing := true } = .ok none := by
+/-- the former counterexample: planes at 0, 0.9975, 100 along the normal (spacing 1, every plane within 0.0025 = a quarter of the
+1 % tolerance of the grid) are recognised, with the spacing fitted to the extent -/
+theorem min_gap_jitter_recognised :
+    getVolumePositions [[0, 0, 0], [0, 0, -399 / 400], [0, 0, -100]] [1, 0, 0, 0, 1, 0] { allowMissing := true }
+      = .ok (some (1, [0, 1, 100])) := by
   decide +kernel
 
 /-- a hint normalises to its absolute value; a zero hint is refused -/
